@@ -949,6 +949,8 @@ def run(repo: Repo, rep):
     from .generic import g_arg_constructor_parameters  # use_full_dataset / batch arguments must reach the code that iterates the loader
     g_arg_constructor_parameters(repo, rep, lambda m: ".conditions." in m or ".samplers.data_samplers" in m or "data_loader" in m, floor=10,
                                  why="a data condition that drops use_full_dataset / a loader that ignores batch_size or shuffle iterates another set of batches than documented")
+    from .c14 import r4_forward_and_ctor_calls  # a data condition keeps no loss between evaluations: every forward iterates the loader again
+    r4_forward_and_ctor_calls(repo, rep)
     r5_loader_hands_sizes_on(repo, rep)
     r6_loader_is_transparent(repo, rep)
     r3c_unique_coverage(repo, rep)
